@@ -338,8 +338,13 @@ def run(ctx):
                         if isinstance(s, ast.Assign) and isinstance(s.targets[0], ast.Tuple) \
                                 and [txt(e) for e in s.targets[0].elts] == [star[0], dstar[0]]:
                             src = s.value
-                    ok = isinstance(src, ast.Call) and callee_last(src) == "validate_inputs" \
-                        and [txt(a) for a in src.args] + [txt(k.value) for k in src.keywords if k.arg] == ["args", "kwargs"]
+                    def _last_is(call, fname, last):
+                        vals = [txt(a) for a in call.args] + [txt(k.value) for k in call.keywords if k.arg]
+                        return isinstance(call, ast.Call) and callee_last(call) == fname and bool(vals) and vals[-1] == last
+                    ok = (isinstance(src, ast.Call) and callee_last(src) == "validate_inputs"
+                          and [txt(a) for a in src.args] + [txt(k.value) for k in src.keywords if k.arg] == ["args", "kwargs"]) or \
+                         (isinstance(src, ast.Tuple) and len(src.elts) == 2 and _last_is(src.elts[0], "validate_args", "args")
+                          and _last_is(src.elts[1], "validate_kwargs", "kwargs"))
                 ctx.ob("R5", f, f"{label} check_types wrapper calls wrapped with validated inputs", ok,
                        "wrapped(*validated_pos, **validated_kwd) from validate_inputs(args, kwargs)" if ok else
                        f"wrapped is called as `{txt(c)}`", f.loc(c))
